@@ -20,7 +20,7 @@ LEVEL = "exploration"
 RULE = ("exhaustive: 25 EEMS 2.0 names x {with, without NewFieldName} x {with, without OutFileName} x {bare, 'Result =' form}; random: "
         "EEMS models of 2-12 commands written in 2.0 syntax (any graph shape, optionally mixed with MPilot-style commands) in all "
         "W-SYNTAX layouts; distinct by (set of 2.0 names used, naming styles, mixed?, layout style)")
-REQUIRED_COUNTERS = ["repeated_loads_compared", "translated_command_lines_compared", "user_library_files", "cli_runs_of_eems2_files", "names_checked", "translations_compared", "result_sets_compared", "restricted_library_histories"]
+REQUIRED_COUNTERS = ["renaming_reads_next_to_a_namesake", "repeated_loads_compared", "translated_command_lines_compared", "user_library_files", "cli_runs_of_eems2_files", "names_checked", "translations_compared", "result_sets_compared", "restricted_library_histories"]
 EXHAUSTIVE_NOTE = "all 25 mapped names x 8 naming/argument forms in both tiers"
 ASSUMPTIONS = ["the harness's name table restates the mapping by meaning (MEANTOMID is the fuzzy mean-to-mid conversion, ORNEG the minimum)",
                "2.0 commands with neither a result name nor NewFieldName/InFieldName, and OutFileName on MPilot-style commands inside a 2.0 file, are don't-care"]
@@ -50,6 +50,8 @@ def cases(ctx):
     # letter case: only the 2.0 names are translated
     for i in range(ctx.n(60, 3000)):
         yield {"kind": "usermix", "rseed": rng.randrange(10 ** 9)}
+    for i in range(ctx.n(24, 1000)):
+        yield {"kind": "alias", "rseed": rng.randrange(10 ** 9)}
     for i in range(ctx.n(500, 40000)):
         m = models.gen_model(rng, n_ops=rng.randint(1, 10), sinks=False, table=models.gen_table(rng, exotic_names=False), metadata=rng.random() < 0.35)   # READ may take its result name from the column
         if i % 5 == 0:
@@ -178,6 +180,40 @@ def _load_run(text, d, libs=None):
     return ("ok",), st, res
 
 
+def run_alias(ctx, case):
+    """A 2.0 READ that renames a column (a -> b) next to another command whose result is called a: commands referring to a get
+    that result, exactly as in the MPilot translation."""
+    rng = random.Random(case["rseed"])
+    d = ctx.scratch()
+    with open(os.path.join(d, "in.csv"), "w") as f:
+        f.write("X0,X1\n1,10\n2,20\n3,40\n")
+    order = rng.random() < 0.5
+    v2 = ['READ(InFileName = "in.csv", InFieldName = X0, NewFieldName = R0)', 'READ(InFileName = "in.csv", InFieldName = X1, NewFieldName = R1)',
+          rng.choice(["SUM(InFieldNames = [R1, R1], NewFieldName = X0)", "COPYFIELD(InFieldName = R1, NewFieldName = X0)", "X0 = MULT(InFieldNames = [R1, R1])"]),
+          rng.choice(["SUM(InFieldNames = [X0, R0], NewFieldName = Total)", "DIF(A = X0, B = R0, NewFieldName = Total)", "MAX(InFieldNames = [X0], NewFieldName = Total)"])]
+    if order:
+        v2 = [v2[1], v2[2], v2[0], v2[3]]
+    text = "\n".join(v2)
+    ctx.count("translations_compared")
+    ctx.count("renaming_reads_next_to_a_namesake")
+    ctx.feature(("alias", order, v2[-1][:3]))
+    o2, s2, r2 = _load_run(text, d)
+    if o2[0] != "ok" or not isinstance(r2, dict):
+        ctx.fail("renaming-read-next-to-a-result-of-the-old-name:fails", {"text": text, "outcome": repr(o2)[:200], "results": repr(r2)[:100]})
+        return
+    import numpy
+    x1 = numpy.array([10.0, 20.0, 40.0])
+    x0 = numpy.array([1.0, 2.0, 3.0])
+    mid = x1 * x1 if "MULT" in text else (x1 + x1 if "SUM(InFieldNames = [R1, R1]" in text else x1)
+    want = mid + x0 if v2[-1].startswith("SUM") else mid - x0 if v2[-1].startswith("DIF") else mid
+    from mpilot.program import Program
+    got = Program.from_source(text, working_dir=d)
+    got.run()
+    val = numpy.ma.getdata(got.commands["Total"].result)
+    if not numpy.array_equal(val, want):
+        ctx.fail("renaming-read-next-to-a-result-of-the-old-name:reference-resolved-to-the-renamed-field", {"text": text, "got": val.tolist(), "want": want.tolist()})
+
+
 def run_usermix(ctx, case):
     from mpilot.program import Program
     rng = random.Random(case["rseed"])
@@ -218,6 +254,8 @@ def run_case(ctx, case):
         return run_name(ctx, case)
     if case["kind"] == "usermix":
         return run_usermix(ctx, case)
+    if case["kind"] == "alias":
+        return run_alias(ctx, case)
     rng = random.Random(case["rseed"])
     model = case["model"]
     d = ctx.scratch()
